@@ -42,6 +42,9 @@ type Chain struct {
 	Style int
 
 	// answer policies (nil = accept)
+	// MapErr, when set, stands in for the backend's MapRPCErr (e.g. the real
+	// chain.NeutrinoClient mapping of btcd's error texts)
+	MapErr     func(error) error
 	SendHook   func(tx *wire.MsgTx) error
 	NotifyHook func(call int, addrs []btcutil.Address) error
 	FilterHook func(call int) error
@@ -203,15 +206,28 @@ func (c *Chain) BackEnd() string                   { return "btcd" }
 func (c *Chain) TestMempoolAccept([]*wire.MsgTx, float64) ([]*btcjson.TestMempoolAcceptResult, error) {
 	return nil, errors.New("fakechain: testmempoolaccept not supported")
 }
-func (c *Chain) MapRPCErr(err error) error { return err }
+func (c *Chain) MapRPCErr(err error) error {
+	c.mu.Lock()
+	f := c.MapErr
+	c.mu.Unlock()
+	if f != nil {
+		return f(err)
+	}
+	return err
+}
 
 func (c *Chain) SendRawTransaction(tx *wire.MsgTx, _ bool) (*chainhash.Hash, error) {
 	c.mu.Lock()
 	c.Sent = append(c.Sent, tx)
 	hook := c.SendHook
+	mapErr := c.MapErr
 	c.mu.Unlock()
 	if hook != nil {
 		if err := hook(tx); err != nil {
+			// the real clients map the node's answer inside SendRawTransaction
+			if mapErr != nil {
+				err = mapErr(err)
+			}
 			return nil, err
 		}
 	}
